@@ -61,6 +61,10 @@ def gen_inputs(key, r):
         return dict(n=int(r.randint(4, 10)), seed=Scripted((), fallback_seed=int(r.randint(1 << 30)), max_draws=2000))
     if base == 'distance_bin':
         return dict(G=_dir(r, n, p=float(r.choice([.2, .4, .7])))) if r.random_sample() < .5 else dict(G=_und(r, n, p=float(r.choice([.2, .5]))))
+    if base in ('breadth', 'breadthdist'):
+        A = _dir(r, n, p=float(r.choice([.15, .3, .6]))) if r.random_sample() < .6 else _und(r, n, p=float(r.choice([.2, .5])))
+        np.fill_diagonal(A, 0)
+        return dict(CIJ=A, source=int(r.randint(n))) if base == 'breadth' else dict(CIJ=A)
     if base == 'efficiency_bin':
         return dict(G=_dir(r, n, p=float(r.choice([.2, .4, .7]))) if r.random_sample() < .5 else _und(r, n, p=float(r.choice([.2, .5]))), local=False)
     if base == 'teachers_round':
